@@ -45,7 +45,12 @@ pub fn judge_value<T: PurlShape>(p: &GenericPurl<T>) -> (Option<String>, Option<
         Out::Ok(s) => s,
         o => return (None, Some(Fail::new("format-panicked", format!("to_string() of {snap:?}: {}", o.kind())))),
     };
-    let want = snap.render();
+    // The documented shape lists the pairs in ascending key order and the type in lower case,
+    // whatever order / case the accessors happen to report.
+    let mut shaped = snap.clone();
+    shaped.quals.sort_by(|a, b| a.0.as_bytes().cmp(b.0.as_bytes()));
+    shaped.ty = crate::model::ascii_lower(&snap.ty);
+    let want = shaped.render();
     if got != want {
         // name the first differing byte for the signature
         let i = got.bytes().zip(want.bytes()).position(|(a, b)| a != b).unwrap_or(got.len().min(want.len()));
